@@ -242,6 +242,11 @@ def gen_fuzz_cases(r, tier, sds):
             continue
         for ops, kind in M.reloc_cases(r, s[1], M.reloc_targets(s[1]), 6 if quick else 12):
             add(s[0], ops, s[2], kind)
+    # (b3) .NET signature blobs of the #Blob heap rewritten with crafted type encodings (array shapes, nesting, generic instantiations, compressed ints)
+    for s in sds:
+        if s[2] == "dotnet":
+            for ops, kind in M.dotnet_blob_cases(r, s[1], 120 if quick else 1500):
+                add(s[0], ops, s[2], kind)
     # (c) truncation at every structure boundary of every seed (all deltas for the smallest seed of each format)
     for fmt in fmts:
         small = min(per_fmt[fmt], key=lambda s: len(s[1]))
